@@ -16,4 +16,9 @@ theorem holds_kill_after_failed_start (a b : Bool) :
       s.dirsLive = 0 ∧ s.runner = none ∧ s.kills = 2 ∧ s.launches = 1 ∧ s.cached = none :=
   kill_after_failed_start _ lifecycle_facts_good a b
 
+theorem cmdrunner_facts_good : Facts.cmdRunner.Good := by decide
+
+theorem holds_cmd_kill_reaches (c : CmdRunner.CmdCfg) : CmdRunner.killReaches Facts.cmdRunner c = true :=
+  cmd_kill_reaches _ cmdrunner_facts_good c
+
 end GoPlugin.Instance.C05
